@@ -93,6 +93,16 @@ Definition finish_update (e : eds) (st' : eds_status) (tmpl_hash' : name) (ann' 
   else if write_spec then Ok (MkEdsPlan [WStatus st'; WSpec tmpl_hash' ann'] false 0 (es_fail_update sn))
   else Ok (MkEdsPlan [WStatus st'] false 0 false).
 
+(** the selection of canary nodes came up short: the status is still written (a percentage of replicas is resolved
+    against status.desired, which must not stay stale) and the reconcile reports the error afterwards *)
+Definition set_error (pl : eds_plan) : eds_plan :=
+  MkEdsPlan (ep_writes pl) (ep_requeue pl) (ep_requeue_after pl) true.
+Definition with_error (o : outcome eds_plan) : outcome eds_plan :=
+  match o with
+  | Ok pl => Ok (set_error pl)
+  | other => other
+  end.
+
 (** the status before the canary bookkeeping: counters from the current replica set and the sums *)
 Definition base_status (e : eds) (current : ers) (sum_cur sum_rdy sum_av : Z) : eds_status :=
   let st := e_status e in
@@ -111,8 +121,8 @@ Definition canary_candidate_nodes (c : canary_spec) : list node :=
 Definition eds_pods (e : eds) : list pod :=
   filter (fun p => N.eqb (p_ns p) (e_ns e) && p_has_eds_label p (e_name e)) (es_pods sn).
 
-(** [updateInstanceWithCurrentRS].  Errors: 51 canary replicas do not resolve, 52 not enough canary
-    nodes; both return before any write. Panic 50: nil canary sub-structure. *)
+(** [updateInstanceWithCurrentRS].  Errors: 51 canary replicas do not resolve (returns before any write);
+    not enough canary nodes: the shortened list is written with the status and the error is reported. Panic 50: nil canary sub-structure. *)
 Definition update_instance (e : eds) (current uptodate : ers) (sum_cur sum_rdy sum_av : Z) : outcome eds_plan :=
   let now := es_now sn in
   let st := e_status e in
@@ -140,7 +150,7 @@ Definition update_instance (e : eds) (current uptodate : ers) (sum_cur sum_rdy s
                   let '(sel, enough) := select_nodes (r_tmpl uptodate) (ca_antiaffinity c) nb
                                                      (canary_candidate_nodes c) (eds_pods e) previous in
                   if enough then finish_update e (with_canary_nodes st3 sel) tmpl_hash' ann failed
-                  else Error 52%N
+                  else with_error (finish_update e (with_canary_nodes st3 sel) tmpl_hash' ann failed)
             end
         end
       else
